@@ -63,6 +63,8 @@ class Analyzer:
         if u.k == "basic":
             if t.is_bool():
                 return z3.Bool(name)
+            if u.name in ("string", "untyped string"):
+                return "?"     # message texts: public
             w, s = t.int_info()
             return k.bv(name, w)
         if u.k == "struct":
@@ -115,6 +117,8 @@ class Analyzer:
         if u.k == "basic":
             if t.is_bool():
                 return z3.Bool(name)
+            if u.name in ("string", "untyped string"):
+                return "?"     # message texts: public
             w, s = t.int_info()
             v = k.bv(name, w)
             if name == "cond":
@@ -434,19 +438,20 @@ def run(chk):
         if r is None:
             continue
         results.append(r)
-    # context-sensitive refinement: a helper that takes plain integers / booleans is first analysed with those parameters
-    # secret (worst case).  If that reports a leak and the helper is not an API entry point, the verdict depends on what
-    # its callers pass (a public loop counter or a secret digit?): execute it inline in every caller instead and take
-    # the verdicts from there (sound: every constant-time call path to it is then analysed with its real arguments).
+    # context-sensitive refinement: every function is first analysed on its own with all its inputs secret and
+    # unconstrained (worst case).  If that reports a leak and the function is not an API entry point, the verdict depends
+    # on what its callers pass (a public loop counter or a secret digit? bytes of a reduced scalar or arbitrary bytes?):
+    # execute it inline in every constant-time caller instead and take the verdicts from there (sound: every call path
+    # to it is then analysed with its real arguments; repeated up the call graph until an entry point is reached).
     roots = set(API)
     ctx_inlined = {}
-    for rnd in range(3):
+    for rnd in range(6):
         cand = []
         for r in results:
             f = prog.fn(r["fname"])
             basic = any(prog.T(p["type"]).u.k == "basic" for p in f["params"])
             leaky = any(s_["verdict"] != "unsat" and not (r["fname"] in VALIDITY and s_["kind"] == "branch") for s_ in r["sites"])
-            if basic and (leaky or r["engine_errors"]) and r["fname"] not in roots and r["fname"] not in an.inline:
+            if (leaky or (basic and r["engine_errors"])) and r["fname"] not in roots and r["fname"] not in an.inline:
                 cand.append(r["fname"])
         if not cand:
             break
@@ -480,6 +485,7 @@ def run(chk):
     if ctx_inlined:
         chk.extra["context_sensitive_reanalysis"] = {k_.replace("filippo.io/edwards25519", "ed"): [x.replace("filippo.io/edwards25519", "ed") for x in v] for k_, v in ctx_inlined.items()}
     nsites = 0
+    reported = set()
     for r in results:
         for m in r["engine_errors"]:
             chk.note_inconclusive(m)
@@ -493,14 +499,20 @@ def run(chk):
             nm = "%s: %s at %s does not depend on secrets (self-composition)" % (label, {"branch": "branch condition", "index": "index", "slicebound": "slice bound", "shift": "shift count", "div": "division operand", "extcall": "call to a routine outside the analysed code (not known constant-time)"}[s["kind"]], s["pos"].split("/")[-1])
             if s["verdict"] == "unsat":
                 chk.add(Ob(nm, "unsat", s["seconds"], [fname], "BV self-composition"))
-            elif exempt and s["kind"] == "branch":
+            elif (exempt or s["fn"] in VALIDITY) and s["kind"] == "branch":
                 chk.add(Ob("%s: validity decision at %s (exempt by the property)" % (label, s["pos"].split("/")[-1]), "unsat", s["seconds"], [fname], "exempt"))
             else:
                 ob = chk.add(Ob(nm, s["verdict"], s["seconds"], [fname], "BV self-composition", model=s["witness"]))
-                key = "%s:%s#%d" % (fname.split(".")[-1].replace(")", ""), s["kind"], [x for x in r["sites"] if x["kind"] == s["kind"]].index(s) + 1)
+                # a site is identified by the function that contains it (it may have been reached inline from a caller)
+                sfn = s["fn"]
+                key = "%s:%s#%d" % (sfn.split(".")[-1].replace(")", ""), s["kind"], [x for x in r["sites"] if x["kind"] == s["kind"] and x["fn"] == sfn].index(s) + 1)
                 if s["verdict"] == "sat":
+                    if key in reported:
+                        ob.verdict = "violated"     # the same site, reached from another caller: reported once
+                        continue
+                    reported.add(key)
                     reproduced, detail = True, None
-                    if fname == E + "checkInitialized":
+                    if sfn == E + "checkInitialized":
                         reproduced, traces = replay_checkinit(base, chk)
                         detail = dict(traces=[str(t) for t in traces])
                     ob.verdict = "violated" if reproduced else "sat-unreplayed"
